@@ -3,11 +3,40 @@
 // Package m: machine-checked contracts (comment-only; read by /verif/govc).
 package m
 
+// Number of bytes of the varint at the front of a block, for the encodings a 16-bit label can have (0: none of them).
+//@ fun vl(b []byte) int = (len(b) >= 1 && b[0] < 128) ? 1 : ((len(b) >= 2 && b[0] >= 128 && b[1] < 128) ? 2 : ((len(b) >= 3 && b[0] >= 128 && b[1] >= 128 && b[2] < 128) ? 3 : 0))
+
+// One rotation, byte for byte (C12): the label at the front is decoded and returned, the rest of the block moves to
+// the front, the return label is written in reversed varint form at the second zero of the moved block (the first one
+// if the decoded label is zero; the last byte if there is none), and no other byte of the block differs from the moved
+// content. A truncated varint is refused.
 //@ func NextRotateSwitchBlock
 //@   modifies block[0:len(block)]
+//@   ensures truncated-label-refused [C12!]: old(len(block) == 0 || (len(block) == 1 && block[0] >= 128) || (len(block) == 2 && block[0] >= 128 && block[1] >= 128)) ==> err != nil
+//@   ensures label-1 [C12!]: err == nil && old(vl(block)) == 1 ==> nextHop == SwitchLabel(old(block[0])) && bytesRead == 1
+//@   ensures label-2 [C12!]: err == nil && old(vl(block)) == 2 ==> nextHop == SwitchLabel(uint16(old(block[0]) & 127) | uint16(old(block[1]))<<7) && bytesRead == 2
+//@   ensures label-3 [C12!]: err == nil && old(vl(block)) == 3 ==> nextHop == SwitchLabel(uint16(old(block[0]) & 127) | uint16(old(block[1]) & 127)<<7 | uint16(old(block[2]))<<14) && bytesRead == 3
+//@   ensures consumed [C12!]: err == nil ==> 1 <= bytesRead && bytesRead <= len(block) && nextHop == SwitchLabel(next)
+//@   ensures moved-to-front [C12!]: err == nil ==> forall k int :: 0 <= k && k < returnLabelStart ==> block[k] == (k + bytesRead < len(block) ? oldheap(block[k+bytesRead]) : 0)
+//@   ensures behind-the-slot-unchanged [C12!]: err == nil ==> forall k int :: returnLabelStart + (returnLabel <= 127 ? 1 : (returnLabel <= 16383 ? 2 : 3)) <= k && k < len(block) ==> block[k] == (k + bytesRead < len(block) ? oldheap(block[k+bytesRead]) : 0)
+//@   ensures slot-inside [C12!]: err == nil ==> 0 <= returnLabelStart && returnLabelStart + (returnLabel <= 127 ? 1 : (returnLabel <= 16383 ? 2 : 3)) <= len(block)
+//@   ensures return-label-1 [C12!]: err == nil && returnLabel <= 127 ==> block[returnLabelStart] == uint8(returnLabel)
+//@   ensures return-label-2 [C12!]: err == nil && returnLabel > 127 && returnLabel <= 16383 ==> block[returnLabelStart] == uint8(returnLabel>>7) && block[returnLabelStart+1] == uint8(returnLabel&127)|128
+//@   ensures return-label-3 [C12!]: err == nil && returnLabel > 16383 ==> block[returnLabelStart] == uint8(returnLabel>>14) && block[returnLabelStart+1] == uint8((returnLabel>>7)&127)|128 && block[returnLabelStart+2] == uint8(returnLabel&127)|128
 //@   invariant 1 irange: 0 <= i && i <= len(block)
 //@   invariant 1 rls: 0 <= returnLabelStart && returnLabelStart < len(block)
 //@   invariant 1 blockfixed: len(block) == len(old_block) && base(block) == base(old_block) && off(block) == off(old_block) && cap(block) == cap(old_block)
+//@   loopforget 1 M|BitVec8
+//@   invariant 1 moved [C12!]: forall k int :: 0 <= k && k < len(block) && k + bytesRead < len(block) ==> block[k] == oldheap(block[k+bytesRead])
+//@   invariant 1 cleared [C12!]: forall k int :: 0 <= k && k < len(block) && k + bytesRead >= len(block) ==> block[k] == 0
+//@   invariant 1 consumed [C12!]: 1 <= bytesRead && bytesRead <= len(block)
+//@   invariant 1 default-slot [C12!]: returnLabelStart == len(block) - 1
+//@   invariant 1 none-seen [C12!]: !seenFirstZero ==> next != 0 && (forall k int :: 0 <= k && k < i ==> block[k] != 0)
+//@   invariant 1 destination [C12!]: next == 0 ==> seenFirstZero && (forall k int :: 0 <= k && k < i ==> block[k] != 0)
+//@   invariant 1 one-seen [C12!]: seenFirstZero && next != 0 ==> exists z int :: 0 <= z && z < i && block[z] == 0
+//@   atexit 1 slot-after-the-end-marker [C12!]: next != 0 && returnLabelStart < len(block) - 1 ==> exists z int :: 0 <= z && z < returnLabelStart && block[z] == 0
+//@   atexit 1 no-zero-before-the-slot-at-the-destination [C12!]: next == 0 ==> forall k int :: 0 <= k && k < returnLabelStart ==> block[k] != 0
+//@   atexit 1 slot-was-a-zero [C12!]: returnLabelStart + bytesRead >= len(block) || oldheap(block[returnLabelStart+bytesRead]) == 0
 //@   decreases 1: len(block) - i
 //@   invariant 2 irange: 0 <= i && i <= len(labelSlot)
 //@   decreases 2: len(labelSlot) - i
